@@ -23,6 +23,7 @@ type ExecGen struct {
 	InitErr   bool
 	FinErr    bool
 	TypeErr   []int
+	Silent    bool // the hooks write nothing to the body
 }
 
 type ExecTarget struct {
@@ -151,7 +152,7 @@ func (c *ExecConfig) Lines() []string {
 				ns = "nil"
 			}
 			ls = append(ls, Line("ex", "gen", Hex(g.Name), idsField(g.Accept), ns, Hex(g.FileType), Hex(g.Filename),
-				HexList(g.Vars), HexList(g.Consts), HexList(g.Imports), B01(g.InitErr), B01(g.FinErr), idsField(g.TypeErr)))
+				HexList(g.Vars), HexList(g.Consts), HexList(g.Imports), B01(g.InitErr), B01(g.FinErr), idsField(g.TypeErr), B01(g.Silent)))
 		}
 	}
 	return append(ls, Line("ex", "run"))
@@ -176,7 +177,7 @@ func parseExecConfig(lines []string) *ExecConfig {
 			c.Targets = append(c.Targets, &ExecTarget{Name: Unhex(f[2]), Dir: Unhex(f[3]), Accept: parseIDs(f[4]), Header: Unhex(f[5])})
 		case "gen":
 			g := &ExecGen{Name: Unhex(f[2]), Accept: parseIDs(f[3]), FileType: Unhex(f[5]), Filename: Unhex(f[6]),
-				Vars: UnhexList(f[7]), Consts: UnhexList(f[8]), Imports: UnhexList(f[9]), InitErr: f[10] == "1", FinErr: f[11] == "1", TypeErr: parseIDs(f[12])}
+				Vars: UnhexList(f[7]), Consts: UnhexList(f[8]), Imports: UnhexList(f[9]), InitErr: f[10] == "1", FinErr: f[11] == "1", TypeErr: parseIDs(f[12]), Silent: f[13] == "1"}
 			if f[4] == "nil" {
 				g.NamersNil = true
 			} else {
@@ -505,6 +506,9 @@ func execOracleProtocol(cfg *ExecConfig, t *ExecTarget, evs []string, cls string
 				pos := -1
 				for _, g := range t.Gens {
 					if g.Filename != fname {
+						continue
+					}
+					if g.Silent {
 						continue
 					}
 					p := strings.Index(content, ExecInitBytes(g.Name))
